@@ -396,6 +396,20 @@ def check(prop, tier, seed):
         if r.get("cfg"):
             cfgs.add(r["cfg"])
 
+    # saturation of the schedule space for small batches: among the cases with at most 3 block tasks
+    # (4 tasks with the driver), how many distinct schedule signatures, and how many of them were first
+    # seen in the last quarter of those cases (0 = the sampled space has stopped growing)
+    small = [r for r in sorted(results, key=lambda r: r.get("i", 0)) if r.get("ss") and 1 < r.get("tasks", 0) <= 4]
+    seen_small = set()
+    new_last_quarter = 0
+    for j, r in enumerate(small):
+        if r["ss"] not in seen_small:
+            seen_small.add(r["ss"])
+            if j >= 3 * len(small) // 4:
+                new_last_quarter += 1
+    saturation = {"cases_with_at_most_3_block_tasks": len(small), "distinct_schedule_signatures": len(seen_small),
+                  "first_seen_in_last_quarter": new_last_quarter}
+
     known = load_known()
     violations = []
     known_hits = collections.OrderedDict()
@@ -488,6 +502,7 @@ def check(prop, tier, seed):
             "simulated_tasks": tasks,
             "distinct_schedule_signatures": len(scheds),
             "distinct_configurations": len(cfgs),
+            "small_batch_schedule_saturation": saturation,
             "faults_fired": dict(sorted(faults.items())),
             "probes": dict(sorted(probes.items())),
             "probes_at_zero": zero_probes,
